@@ -691,10 +691,10 @@ class VM:
         elif op == OpCode.IN:
             obj = self.stack.pop()
             key = self.stack.pop()
-            if not isinstance(obj, JSObject):
+            if not isinstance(obj, (JSObject, JSFunction)):
                 raise JSTypeError("Cannot use 'in' operator on non-object")
             key_str = to_string(key)
-            self.stack.append(obj.has(key_str))
+            self.stack.append(self._has_property(obj, key_str))
 
         # Control flow
         elif op == OpCode.JUMP:
@@ -1150,6 +1150,12 @@ class VM:
                 return obj.name
             if key_str == "prototype":
                 return getattr(obj, "_prototype", UNDEFINED) or UNDEFINED
+            if key_str in obj.properties:
+                return obj.properties[key_str]
+            # Functions inherit from Object.prototype (hasOwnProperty, valueOf, ...)
+            object_proto = self._object_prototype()
+            if object_proto is not None and object_proto.has(key_str):
+                return object_proto.get(key_str)
             return UNDEFINED
 
         if isinstance(obj, JSObject):
@@ -2297,6 +2303,12 @@ class VM:
             except ValueError:
                 pass  # Not a number, allow as string property
             obj.set(key_str, value)
+        elif isinstance(obj, JSFunction):
+            if key_str == "prototype":
+                # new F() links instances to this object
+                obj._prototype = value if isinstance(value, JSObject) else None
+            else:
+                obj.properties[key_str] = value
         elif isinstance(obj, JSObject):
             # Check for setter
             setter = obj.get_setter(key_str)
@@ -2320,9 +2332,44 @@ class VM:
 
     def _delete_property(self, obj: JSValue, key: JSValue) -> bool:
         """Delete property from object."""
+        key_str = to_string(key) if not isinstance(key, str) else key
         if isinstance(obj, JSObject):
-            key_str = to_string(key) if not isinstance(key, str) else key
             return obj.delete(key_str)
+        if isinstance(obj, JSFunction):
+            obj.properties.pop(key_str, None)
+        return True
+
+    def _object_prototype(self) -> Optional[JSObject]:
+        constructor = self.globals.get("Object")
+        proto = constructor.get("prototype") if isinstance(constructor, JSObject) else None
+        return proto if isinstance(proto, JSObject) else None
+
+    def _has_property(self, obj: JSValue, key_str: str) -> bool:
+        """The in operator: own or inherited, data or accessor, array element or length."""
+        if isinstance(obj, JSFunction):
+            return (
+                key_str in obj.properties
+                or key_str in ("prototype", "length", "name", "call", "apply", "bind")
+                or self._has_property(self._object_prototype(), key_str)
+            )
+        current = obj
+        while isinstance(current, JSObject):
+            if (
+                current.has(key_str)
+                or key_str in current._getters
+                or key_str in current._setters
+            ):
+                return True
+            if isinstance(current, (JSArray, JSTypedArray)):
+                if key_str == "length":
+                    return True
+                if key_str.isdigit() and str(int(key_str)) == key_str:
+                    if int(key_str) < current.length:
+                        return True
+            current = getattr(current, "_prototype", None)
+        # Methods the engine provides outside the prototype objects
+        if isinstance(obj, JSObject):
+            return self._get_property(obj, key_str) is not UNDEFINED
         return False
 
     def _invoke_getter(self, getter: Any, this_val: JSValue) -> JSValue:
